@@ -25,6 +25,7 @@ from .facts import Body, callee_name
 MAX_CALLEE_BLOCKS = 120
 MAX_BODY_BLOCKS = 2500
 MAX_ROUNDS = 4
+DESUGAR_ADAPTORS = False
 
 _BLOCK_KEYS = ("t", "unwind", "otherwise", "imag")
 
@@ -157,6 +158,55 @@ def _splice(B, cb, F):
         B.blocks.append(nblk)
 
 
+def _desugar_any_all(B, cb, C, which):
+    """`dest = iter.any(closure)` (or `all`) with the closure built in this body becomes the loop it abbreviates:
+         head:  opt = Iterator::next(&mut it);  match opt { None => { dest = !hit; goto cont }  Some(x) => body }
+         body:  r = <closure body>(x);  if r == hit_value { dest = hit; goto cont } else goto head
+    (hit_value = true for any, false for all), with the closure's blocks spliced in.  The rules then see the same loop, the same
+    calls and the same exits whether the search is written as a `for` loop or as an adaptor call."""
+    t = B.blocks[cb]["term"]
+    sp = t["sp"]
+    hit = (which == "any")
+    lo = len(B.locals)
+    gargs = t["callee"].get("gargs") or ["?"]
+    item_ty = "?"
+    # new locals: it, itref, opt, d, item, envref, res
+    names = ["it", "itref", "opt", "d", "item", "envref", "res"]
+    tys = [gargs[0], "&mut " + gargs[0], "std::option::Option<%s>" % item_ty, "isize", item_ty, "&mut " + (gargs[1] if len(gargs) > 1 else "?"), "bool"]
+    for ty in tys:
+        B.locals.append({"ty": ty, "mut": True})
+    L = {n: lo + i for i, n in enumerate(names)}
+    clo = t["args"][1]
+    clo_place = clo.get("m") or clo.get("c")
+    bo = len(B.blocks)
+    HEAD, SW, NONE, BODY, TEST, YES = bo, bo + 1, bo + 2, bo + 3, bo + 4, bo + 5
+    cont = t.get("t")
+    cleanup = {"cleanup": True} if B.blocks[cb].get("cleanup") else {}
+    B.blocks[cb] = {"stmts": list(B.blocks[cb]["stmts"]) + [{"p": (L["it"],), "rv": {"k": "use", "op": t["args"][0]}, "sp": sp}],
+                    "term": {"k": "goto", "t": HEAD}, **cleanup}
+    nxt = {"decl": "std::iter::Iterator::next", "gargs": [gargs[0]], "trait": "std::iter::Iterator",
+           "resolved": "<%s as std::iter::Iterator>::next" % gargs[0], "local": False}
+    B.blocks.append({"stmts": [{"p": (L["itref"],), "rv": {"k": "ref", "bk": "mut", "place": (L["it"],)}, "sp": sp}],
+                     "term": {"k": "call", "callee": nxt, "args": [{"m": (L["itref"],)}], "dest": (L["opt"],), "t": SW, "unwind": None, "sp": sp, "exp": True}})
+    B.blocks.append({"stmts": [{"p": (L["d"],), "rv": {"k": "discr", "place": (L["opt"],), "ty": "isize"}, "sp": sp}],
+                     "term": {"k": "switch", "discr": {"m": (L["d"],)}, "targets": [(0, NONE)], "otherwise": BODY, "ty": "isize"}})
+    fin = {"k": "goto", "t": cont} if isinstance(cont, int) else {"k": "unreachable"}
+    B.blocks.append({"stmts": [{"p": tuple(t["dest"]), "rv": {"k": "use", "op": {"k": {"ty": "bool", "bool": (not hit)}}}, "sp": sp}], "term": dict(fin)})
+    # BODY: bind the closure's parameters and jump into its (spliced) entry
+    entry = bo + 6
+    B.blocks.append({"stmts": [{"p": (L["item"],), "rv": {"k": "use", "op": {"m": (L["opt"], "@Some", ".0")}}, "sp": sp},
+                               {"p": (L["envref"],), "rv": {"k": "ref", "bk": "mut", "place": tuple(clo_place)}, "sp": sp}],
+                     "term": {"k": "goto", "t": entry}})
+    B.blocks.append({"stmts": [], "term": {"k": "switch", "discr": {"m": (L["res"],)}, "targets": [(0, YES if not hit else HEAD)], "otherwise": (YES if hit else HEAD), "ty": "bool"}})
+    B.blocks.append({"stmts": [{"p": tuple(t["dest"]), "rv": {"k": "use", "op": {"k": {"ty": "bool", "bool": hit}}}, "sp": sp}], "term": dict(fin)})
+    # the closure body, as a callee with arguments (envref, item) and destination res, continuing at TEST
+    fake = {"k": "call", "args": [{"m": (L["envref"],)}, {"m": (L["item"],)}], "dest": (L["res"],), "t": TEST, "sp": sp}
+    stub = len(B.blocks)
+    B.blocks.append({"stmts": [], "term": fake})
+    assert stub == entry
+    _splice(B, stub, C)
+
+
 def inline_program(P):
     """returns {body id: inlined Body} for the bodies that changed, the set of helper ids that were inlined away, and a log"""
     barrier = barrier_names()
@@ -255,6 +305,33 @@ def inline_program(P):
                 progress = True
         if not progress:
             break
+    # iterator adaptors whose closure is built in the same body: any / all.  Switched off: several rules recognise the adaptor
+    # call itself (C08.R9, C15.R6) and the loop-form rules (C11.R2) would need path-sensitive constant flow to follow the
+    # rewritten exits; with the pass on, the unchanged tree raised C08.R9.  Kept for a later round.
+    for fid in (list(bodies) if DESUGAR_ADAPTORS else ()):
+        B = get(fid)
+        made = {}
+        for bb, idx, st in B.stmts(cleanup=True):
+            rv = st.get("rv")
+            if rv and rv["k"] == "agg" and rv["akind"] == "closure" and len(st["p"]) == 1:
+                made[st["p"][0]] = rv["def"]
+        todo = []
+        for bb, t in B.calls(cleanup=False):
+            n = t["callee"].get("decl") or ""
+            if n in ("std::iter::Iterator::any", "std::iter::Iterator::all") and len(t["args"]) == 2:
+                pl = t["args"][1].get("m") or t["args"][1].get("c")
+                if pl is not None and len(pl) == 1 and pl[0] in made and made[pl[0]] in bodies:
+                    C = get(made[pl[0]])
+                    if C.arg_count == 2 and len(C.blocks) <= MAX_CALLEE_BLOCKS and not any(x["k"] == "yield" for _, x in C.terms(cleanup=True)):
+                        todo.append((bb, C, n.rsplit("::", 1)[-1]))
+        if not todo:
+            continue
+        if fid not in changed:
+            B = _clone_body(B)
+            changed[fid] = B
+        for bb, C, which in todo:
+            _desugar_any_all(B, bb, C, which)
+            log.append("%s: %s(closure) rewritten as the loop it abbreviates" % (fid, which))
     # helpers with no remaining use
     still_called = set()
     for fid in bodies:
